@@ -108,8 +108,9 @@ def describe(ops, target):
     phases = [float(o.data[0]) for o in ops if o.name == "GlobalPhase"]
     target = np.asarray(target, dtype=complex)
     d_phase = float(np.linalg.norm(target - v, 2))
-    tr = abs(np.trace(v.conj().T @ target))
-    d_free = float(math.sqrt(max(0.0, 2.0 - tr)))
+    tr = np.trace(v.conj().T @ target)
+    ph = tr / abs(tr) if abs(tr) > 1e-300 else 1.0
+    d_free = float(np.linalg.norm(target - ph * v, 2))     # operator norm minimised over the global phase
     return {"word": word, "others": others, "phases": phases, "d_phase": d_phase, "d_free": d_free,
             "last_is_phase": bool(ops) and ops[-1].name == "GlobalPhase",
             "wires": sorted({str(w) for o in ops for w in o.wires})}
